@@ -101,9 +101,11 @@ def run(ctx):
     require(len(ctxs) == 6 and min(ctxs.values()) > 100, "pool contexts not all exercised: %s" % ctxs, ctx=ctx)
     need = ctxs.get("orig-pending", 0) + ctxs.get("orig-unmarked", 0) + ctxs.get("other-pending", 0)
     require(ctx_ok == need, "the real pool was not in the intended context in %d of %d events" % (need - ctx_ok, need), ctx=ctx)
-    for how in ("long", "lead0", "wrap1"):
+    for how in ("long", "lead0"):
         require(muts.get(("eth", "reframe:" + how), 0) > 10 and muts.get(("eth", "reframe-data:" + how), 0) > 10,
                 "re-framing %s was hardly applied" % how, ctx=ctx)
+    # a single byte below 0x80 only occurs as a one-byte call datum (all other payload items are longer)
+    require(muts.get(("eth", "reframe-data:wrap1"), 0) > 5, "re-framing wrap1 was hardly applied", ctx=ctx)
     require(sum(v for (k, m), v in muts.items() if m.startswith("textual:")) > 20, "textual variations not exercised", ctx=ctx)
     require(len(muts) >= 60, "few mutation classes exercised (%d)" % len(muts), ctx=ctx)
     require(events == nev, "events judged (%d) != events recorded (%d)" % (events, nev), ctx=ctx)
